@@ -848,8 +848,10 @@ def _setpos_cases(arg):
             old = None
         elif c < 0.85:
             old = list(own)
-        else:
+        elif c < 0.92:
             old = [own[0], own[1] + 1]
+        else:
+            old = [own[0] + rng.choice([1, -1, 2]), own[1]]      # same column, another line
         for g in allf:
             g._cache.clear()
             g._cache['sentinel'] = 1
